@@ -105,6 +105,7 @@ class Run:
             self.load_factor = 1.0
         self.per_obl_timeout = self.load_factor * float(os.environ.get("PV_TIMEOUT", 10 if tier == "quick" else 60))
         self.paths = 0
+        self.tmul = max(1, int(os.environ.get("PV_THOROUGH_MUL", "3")))  # the thorough tier's stand-in sizes are multiplied by this
         self.level_override = None  # a check whose substance is bounded claims "other" even when its few obligations discharge
         self.nonproved = 0
         self.section_budget = self.load_factor * float(os.environ.get("PV_SECTION_BUDGET", 150 if tier == "quick" else 1200))
